@@ -33,7 +33,7 @@ func init() {
 		Real:     []string{"seehuhn.de/go/pdf filters and internal codecs (working tree)", "compress/zlib", "Writer.OpenStream / DecodeStream in chain mode"},
 		Stub:     []string{"encoder sink and decoder source (simio delivery schedules)", "simulated disk in chain mode"},
 		Quick:    core.Budget{Runs: 800000, Secs: 150},
-		Thorough: core.Budget{Runs: 6000000, Secs: 1500},
+		Thorough: core.Budget{Runs: 6000000, Secs: 900},
 		Run:      Run,
 		Corners:  corners,
 	})
